@@ -1,6 +1,6 @@
 (** Run/C09.v — wire-format entry point for the C09 models. *)
 From Coq Require Import ZArith List Bool.
-From NS Require Import Base.Sx Gen.G09 Model.OneHot.
+From NS Require Import Base.Sx Gen.G09 Model.OneHot Model.ChordOneHot.
 Import ListNotations.
 Local Open Scope Z_scope.
 
@@ -9,6 +9,16 @@ Definition oPair (p : option (Z * Z)) : sx :=
 
 Definition xRanges (s : sx) : list range :=
   map (fun r => (xZ (xnth 0 r), xZ (xnth 1 r), xZ (xnth 2 r))) (xL s).
+
+Definition xMeaning (s : sx) : option (Z * Z) :=
+  match xL s with r :: q :: nil => Some (xZ r, xZ q) | _ => None end.
+Definition oChEnc (r : chres Z) : sx := match r with ChOk z => L [I z] | ChErr => L [] end.
+Definition oChDec (r : chres (option (Z * Z))) : sx :=
+  match r with
+  | ChOk None => L [L []]
+  | ChOk (Some (a, b)) => L [L [I a; I b]]
+  | ChErr => L []
+  end.
 
 (* (op args...) *)
 Definition run (s : sx) : sx :=
@@ -36,5 +46,9 @@ Definition run (s : sx) : sx :=
   | 6 => (* density: bs e i *)
       let bs := xZs (a 1%nat) in
       L [I (dens_num_classes bs); I (dens_encode bs (xZ (a 2%nat))); I (dens_decode bs (xZ (a 3%nat)))]
+  | 7 => (* major/minor chords: i meaning -> (num_classes encode decode) *)
+      L [I (ch_num_classes 2); oChEnc (mm_encode (xMeaning (a 2%nat))); oChDec (mm_decode (xZ (a 1%nat)))]
+  | 8 => (* triads *)
+      L [I (ch_num_classes 4); oChEnc (triad_encode (xMeaning (a 2%nat))); oChDec (triad_decode (xZ (a 1%nat)))]
   | _ => oErr 1
   end.
